@@ -13,6 +13,7 @@
 From Coq Require Import List ZArith NArith Bool.
 Import ListNotations.
 Require Import Gram.Model.Term Gram.Model.ParserPost Gram.Proofs.ReassocProofs.
+Require Gram.Proofs.ContentProofs.
 Require Import Gram.Model.Token Gram.Model.Grammar Gram.Gen.ParserSkeleton Gram.Gen.GrammarY Gram.Model.Parser Gram.Proofs.ParserProofs Gram.Proofs.SoundProofs.
 
 Theorem C07_skeleton_matches_grammar : forallb compat_nt all_nts = true.
@@ -137,3 +138,28 @@ Theorem C07_chains_from_tokens : ltac:(let T := type of ReassocExamples.tok_mixe
 Proof. exact ReassocExamples.tok_mixed. Qed.
 Check C07_chains_from_tokens : _ /\ _.
 Print Assumptions C07_chains_from_tokens.
+
+(* Every token is consumed, none invented, none reordered (Proofs/ContentProofs.v): the in-order list of content items
+   of the tree - identifiers (variable occurrences AND binder names, where they are written), literals, constants,
+   operators and unary minus, keywords, arrows, colons, `=`, braces, terminators; everything but the parentheses -
+   is exactly the list read off the input tokens, for the raw tree and for the re-associated one. The hypothesis
+   excludes only identifier tokens spelled `_` with an EMPTY byte range (no real input has one; with empty ranges
+   a written `_` binder cannot be told from the placeholder of `a -> b`: ContentExample.hypothesis_needed). *)
+Theorem C07_tree_carries_exactly_the_tokens : forall toks memo t, ContentProofs.underscores_ok toks ->
+  fst (fst (parse_stage1 toks memo)) = S1Tree t ->
+  ContentProofs.content t = ContentProofs.tok_content toks /\ ContentProofs.content (reassociate t) = ContentProofs.tok_content toks.
+Proof. intros toks memo t U H. exact (conj (ContentProofs.parsed_tree_content toks memo t U H) (ContentProofs.parser_output_content toks memo t U H)). Qed.
+Check C07_tree_carries_exactly_the_tokens : forall toks memo t, ContentProofs.underscores_ok toks ->
+  fst (fst (parse_stage1 toks memo)) = S1Tree t ->
+  ContentProofs.content t = ContentProofs.tok_content toks /\ ContentProofs.content (reassociate t) = ContentProofs.tok_content toks.
+Print Assumptions C07_tree_carries_exactly_the_tokens.
+
+Theorem C07_tree_content_without_hypothesis : forall toks memo t keep, ContentProofs.hides_underscores keep ->
+  fst (fst (parse_stage1 toks memo)) = S1Tree t ->
+  filter keep (ContentProofs.content (reassociate t)) = filter keep (ContentProofs.tok_content toks).
+Proof. exact ContentProofs.parser_output_content_any. Qed.
+Check C07_tree_content_without_hypothesis : forall toks memo t keep, ContentProofs.hides_underscores keep ->
+  fst (fst (parse_stage1 toks memo)) = S1Tree t ->
+  filter keep (ContentProofs.content (reassociate t)) = filter keep (ContentProofs.tok_content toks).
+Print Assumptions C07_tree_content_without_hypothesis.
+
